@@ -1,17 +1,17 @@
 check("C20", "model_checking",
       "TLC model-checks the driver specification SyltDriver (the `sylt` command as a state machine: parse arguments, compile, then run the chunk / "
-      "write it to stdout / write it to FILE, print every error, exit) over all 448 configurations (8 sinks incl. absent/existing FILE and the root-proof "
-      "unwritable ones - missing parent directory, existing directory, /dev/full, full stdout - x --require x --no-std x accepted / rejected with 1-3 errors / "
-      "failing at run time by assert, unreachable, Lua error x uses-std) with the contract (exit 0 <=> success, every error printed, FILE / stdout / the child's "
-      "chunk complete or untouched in every state) as invariants; then the built `sylt` binary is run once per configuration x 3 programs per class x 2 (quick) / 12 "
+      "write it to stdout / write it to FILE, print every error, exit) over all 2800 configurations (10 sinks incl. absent FILE, existing FILE shorter than / as long as / longer than the output, and the root-proof "
+      "unwritable ones - missing parent directory, existing directory, /dev/full, full stdout - x {no --require, M spelled m, m.lua, dir/m.lua, ext.helpers, a.b.c, m.lua.lua} "
+      "x --no-std x accepted / rejected with 1, 2, 255, 256, 257, 512 errors / failing at run time by assert, unreachable, Lua error x uses-std) with the contract (exit 0 <=> success, every error printed, FILE / stdout / the child's "
+      "chunk complete or untouched in every state) as invariants; then the built `sylt` binary is run once per configuration x 3 programs per class x 1 (quick) / 4 "
       "(thorough) command-line spellings in its own scratch directory with minilua as `lua` on PATH, and every recorded run (exit code, stdout/stderr, FILE before/after, "
       "the chunk given to lua, error blocks, require sites and executed requires) is validated by TLC (Trace_Driver) as a behaviour of that specification, including the "
-      "relational clauses against partner records (same bytes on every sink and spelling, exactly one require in front of the unchanged program, --no-std neutral "
+      "relational clauses against partner records (same bytes on every sink and spelling, exactly one require of M without one trailing .lua in front of the unchanged program, --no-std neutral "
       "for std-free programs). Bounded-exhaustive over the configuration space, not a proof.",
       "Trusted: TLC, the SyltDriver module as the reading of the property, the recorder c20 (raw facts only), minilua as `lua`, and the library API of the current tree "
       "as the reference for 'the complete program' and 'every error' (differential: never stored outputs, never message texts). The exit status of `-o -` into an unwritable "
       "stdout is left open for compilable programs (the property fixes it for FILE only; C20_STRICT_STDOUT=1 requires non-zero: sylt exits 0 there today); a panic message naming "
       "the failure counts as the printed error for an unwritable FILE (C20_STRICT_PANIC=1 does not accept it). Not explored: --dump-tree, -v, --help, no file argument, "
-      "`--require M.lua`, partially failing writes to a regular file.",
+      "partially failing writes to a regular file.",
       "TLA+ driver spec + TLC trace validation of recorded runs of the built binary (index-addressed configuration universe, stubbed-world negative controls per clause)",
       "DESIGN.md 5.12, 8/C20")
